@@ -19,7 +19,7 @@ func flattenCase(g *Gen, o flatOpts, plus bool, repeats, permutes int, faults bo
 	// KeepNames applies to single-document bundles: decided first, so that half of them use plain names only
 	keep := !o.Expand && g.p(0.2)
 	bo := BundleOpts{Plus: plus, AnonOK: anon, SharedOK: anon && !o.RemoveUnused, MaxAux: 3}
-	scenarios := []string{"collide-pointer", "collide-many", "collide-nested", "unused-chain", "expand-via-response", "collide-simple-shared", "prefix-names", "ref-siblings", "generated-name-clash", "case-twins", "digit-siblings", "odd-status", "pointer-chain-sections", "hash-twins", "no-root-definitions", "pointer-in-simple-target", "shared-param-twins", "id-equals-derived-key", "cycle-collide-simple", "remote-ref-siblings", "empty-mangled-names", "relative-path-two-bases", "generated-name-equals-imported", "alias-to-pointer", "collide-sibling-refs", "root-named-aux", "two-spellings"}
+	scenarios := []string{"collide-pointer", "collide-many", "collide-nested", "unused-chain", "expand-via-response", "collide-simple-shared", "prefix-names", "ref-siblings", "generated-name-clash", "case-twins", "digit-siblings", "odd-status", "pointer-chain-sections", "hash-twins", "no-root-definitions", "pointer-in-simple-target", "shared-param-twins", "id-equals-derived-key", "cycle-collide-simple", "remote-ref-siblings", "empty-mangled-names", "relative-path-two-bases", "generated-name-equals-imported", "alias-to-pointer", "collide-sibling-refs", "root-named-aux", "two-spellings", "alias-named-like-generated"}
 	if !keep && !plus && index%3 != 0 {
 		// two bundles in three carry a planted interplay shape, taken in turn
 		bo.Scenario = scenarios[(index-index/3-1)%len(scenarios)]
@@ -297,7 +297,14 @@ func flattenLeanFindings(c *Case, v any) []Finding {
 	}
 	if want("C01", "C04") || (want("C05") && o.Expand) || (want("C06") && o.RemoveUnused) {
 		if ok, _ := get(v, "meaning", "ok").(bool); !ok {
-			fs = append(fs, Finding{Kind: "property", Detail: fmt.Sprintf("Flatten (%s) changed the meaning of the API: first difference %s, missing definitions %s, top-level keys equal: %v", o, canonStr(get(v, "meaning", "firstDifference")), canonStr(get(v, "meaning", "missingDefinitions")), get(v, "meaning", "topKeysEqual")), Signature: sig("meaning")})
+			sg := sig("meaning")
+			// known cause (finding D19): the only difference is that root definitions are gone which are nothing but a $ref to
+			// another document and whose *name* contains "OAIGen": the flatten context takes such a holder for a definition
+			// it generated itself (strings.Contains(key, "OAIGen")), re-inlines it into its referrers and deletes it
+			if get(v, "meaning", "firstDifference") == nil && aliasNamedLikeGeneratedOnly(get(c.In, "bundle", "root"), get(v, "meaning", "missingDefinitions")) {
+				sg = "flatten:root-alias-definition-named-like-generated-is-dropped"
+			}
+			fs = append(fs, Finding{Kind: "property", Detail: fmt.Sprintf("Flatten (%s) changed the meaning of the API: first difference %s, missing definitions %s, top-level keys equal: %v", o, canonStr(get(v, "meaning", "firstDifference")), canonStr(get(v, "meaning", "missingDefinitions")), get(v, "meaning", "topKeysEqual")), Signature: sg})
 		}
 	}
 	if !o.Expand && want("C02", "C04") {
@@ -349,3 +356,25 @@ func flattenLeanFindings(c *Case, v any) []Finding {
 }
 
 func asList(v any) []any { l, _ := v.([]any); return l }
+
+// aliasNamedLikeGeneratedOnly: every missing definition is, in the input root, a bare $ref to another document under a name
+// that contains "OAIGen" (the shape of finding D19), and there is at least one.
+func aliasNamedLikeGeneratedOnly(root any, missing any) bool {
+	ms, _ := missing.([]any)
+	if len(ms) == 0 {
+		return false
+	}
+	defs, _ := get(root, "definitions").(map[string]any)
+	for _, m := range ms {
+		name, _ := m.(string)
+		if !strings.Contains(name, "OAIGen") {
+			return false
+		}
+		d, _ := defs[name].(map[string]any)
+		r, _ := d["$ref"].(string)
+		if len(d) != 1 || r == "" || strings.HasPrefix(r, "#") {
+			return false
+		}
+	}
+	return true
+}
